@@ -367,6 +367,15 @@ SPECIAL = [
      lambda rs: len(rs) == 3 and rs[0].visual.get('facecolor') == 'cyan' and rs[1].visual.get('facecolor') == 'cyan'
      and rs[2].visual.get('facecolor') != 'cyan'),
     ('wcs; circle(1,2,3)\nimage; circle(4,5,6)\n', lambda rs: len(rs) == 1 and float(rs[0].center.x) == 3.0),
+    # the kind of frame (pixel / celestial) follows every frame change, in both directions
+    ('image\ncircle(11,21,5)\nfk5\ncircle(202.5,47.2,0.01)\nimage\ncircle(4,5,6)\ngalactic;circle(10,20,30")\n',
+     lambda rs: [type(r).__name__ for r in rs] == ['CirclePixelRegion', 'CircleSkyRegion', 'CirclePixelRegion', 'CircleSkyRegion']
+     and abs(rs[1].center.ra.deg - 202.5) < 1e-9 and abs(rs[1].radius.to_value('deg') - 0.01) < 1e-12 and float(rs[2].center.x) == 3.0
+     and rs[3].center.frame.name == 'galactic'),
+    # global properties accumulate over several global lines; a later line only replaces the keys it names
+    ('global color=cyan width=3\nglobal dash=1\nimage\ncircle(1,2,3)\nglobal color=red\ncircle(4,5,6) # width=1\n',
+     lambda rs: len(rs) == 2 and rs[0].visual.get('facecolor') == 'cyan' and rs[0].visual.get('linewidth') == 3 and rs[0].visual.get('linestyle') == 'dashed'
+     and rs[1].visual.get('facecolor') == 'red' and rs[1].visual.get('linewidth') == 1 and rs[1].visual.get('linestyle') == 'dashed'),
 ]
 
 
